@@ -387,6 +387,75 @@ def part_resolution(run):
     return cases
 
 
+# --------------------------------------------------------------------------- part 1b: Python functions inside blocks
+def part_blockscopes(run, cases):
+    """Names stored INSIDE a Python function of a <% %> / <%! %> block (before and after a nested def / lambda / class /
+    comprehension) are not bindings of the template: PyScope.tla says which names the block binds at its top, and for
+    every other name Scopes.tla's walk for a body read with S = {CTX} / {} gives what ${name} must see."""
+    import copy
+    import re
+    from mako.template import Template
+    from . import c19_scope as ps
+    progs, meta = [], {}
+    for nm, stmts in ps.nested_scope_shapes():
+        pid = len(progs) + 1
+        progs.append({"id": pid, "body": ps.rename(copy.deepcopy(stmts), "_1")})
+        meta[pid] = nm
+    exp = ps.tlc_sets(run, progs, "mc-blockscopes")
+    if exp is None:
+        return
+
+    def token(S, strict):
+        return cases[(S, "R_BODY", strict, "none", "none")]["expect"]
+    n_ok = 0
+    seen = set()
+    for pr in progs:
+        src = "\n".join(ps.src_block(pr["body"], 0))
+        free, bound = exp[pr["id"]]
+        inner = sorted(set(re.findall(r"\b(?:nl_\w+|pa_\w+|loop)\b", src)) - bound)
+        if not inner:
+            raise MachineryError("no inner names in %s" % meta[pr["id"]])
+        # (a <%! %> block runs when the module is imported, without a context: the function is defined there, not called)
+        src_mod = "\n".join(ps.src_block(pr["body"][:-1], 0))
+        for module_block in (False, True):
+            t = ("<%!\n" + src_mod if module_block else "<%\n" + src) + "\n%>\n" + "".join("{%s=${show(%s)}}\n" % (n, n) for n in inner)
+            for with_ctx, strict in ((True, False), (False, False), (False, True), (True, True)):
+                want = token(("CTX",) if with_ctx else (), strict)
+                env = Env([])
+                ctx = dict(env.helpers)
+                ctx.update({n: ps.value_for(n) for n in free})
+                if with_ctx:
+                    ctx.update({n: (lambda *a: "CTX") for n in inner})
+                run.traces += 1
+                try:
+                    out = re.sub(r"\s+", "", Template(t, strict_undefined=strict, enable_loop="loop" not in inner).render_unicode(**ctx))
+                    got = dict(re.findall(r"\{(\w+)=([^{}]*)\}", out))
+                    obs = {n: got.get(n, "missing") for n in inner}
+                except NameError as e:
+                    m = re.search(r"'(\w+)' is not defined", str(e))
+                    hit = m.group(1) if m else "?"
+                    # strict: the first unresolvable name aborts the render -- any inner name explains a NameError verdict
+                    obs = {n: ("NameError" if (type(e) is NameError and hit in inner and "name '" not in str(e)) else "exc:" + type(e).__name__ + ":" + str(e)[:40])
+                           for n in inner}
+                except Exception as e:  # noqa
+                    obs = {n: "exc:%s" % type(e).__name__ for n in inner}
+                for n in inner:
+                    if obs[n] == want:
+                        n_ok += 1
+                        continue
+                    sig = "blockscope:%s:%s:%s:expected-%s:got-%s" % ("module-block" if module_block else "body-block", meta[pr["id"]],
+                                                                    ps.role(n), want, ":".join(obs[n].split(":")[:2]))
+                    if sig not in seen:
+                        seen.add(sig)
+                        run.violation(sig, "name %s is stored only inside a function of the block (%s): ${%s} must see %s, saw %s"
+                                      % (n, meta[pr["id"]], n, want, obs[n]), {"template": t, "context_has_name": with_ctx, "strict": strict,
+                                                                               "top_level_bound": sorted(bound), "observed": obs})
+    if n_ok < 200 and not seen:
+        raise MachineryError("block-scope part compared only %d reads" % n_ok)
+    run.extra["blockscope_reads"] = n_ok
+    run.negative_control(token(("CTX",), False) != token((), False), "block-scope expectation does not depend on the context")
+
+
 # --------------------------------------------------------------------------- part 3: V, recorded reads
 def record_multi(rng, tid, strict):
     """One template with several variables; every variable has its own set of binding sites and is
@@ -946,7 +1015,9 @@ def part_history(run):
 def check(run):
     import mako
     run.extra["mako_file"] = mako.__file__
-    part_resolution(run)
+    cases = part_resolution(run)
+    if cases:
+        part_blockscopes(run, cases)
     part_reserved(run)
     part_history(run)
     part_recorded(run)
